@@ -210,8 +210,20 @@ def check_sizeof(rep, st):
     """sizeof of declared objects through the real compiler for every variable shape x symbolic-free sizes (concrete cross-check,
     the MIR obligation on parse_sizeof is discharged below)"""
     decls = [('char c', 'c', 1), ('short s', 's', 2), ('int i', 'i', 2), ('char *p', 'p', 2), ('char a[7]', 'a', 7), ('short w[5]', 'w', 10), ('const char t[3] = {1,2,3}', 't', 3),
-             ('const short u[4] = {1,2,3,4}', 'u', 8), ('char *tp[3]', 'tp', 6), ('unsigned char ub[255]', 'ub', 255), ('signed short sw[2]', 'sw', 4)]
+             ('const short u[4] = {1,2,3,4}', 'u', 8), ('char *tp[3]', 'tp', 6), ('unsigned char ub[255]', 'ub', 255), ('signed short sw[2]', 'sw', 4),
+             ('char e5[5]', 'e5[0]', 1), ('short ew[3]', 'ew[1]', 2), ('char *ep[3]', 'ep[2]', 2), ('char e7[7]', 'e7[X]', 1)]
     for d, n, want in decls:
+        if '[' in n:
+            # the size of one element, in a statement (the constant calculator takes names only)
+            src = d + '; char szr; void main() { szr = sizeof(%s); }' % n
+            c = common.compile_one(src); st['replays'] += 1; st['obligations'] += 1
+            got = None
+            if c.status == 'ok':
+                m = re.search(r'LDA #(\d+)\s*;? *\n?\s*STA szr', '\n'.join(c.funcs['main']['lines']))
+                got = int(m.group(1)) if m else None
+            if c.status == 'err' or got == want: st['discharged'] += 1       # rejecting is allowed, a wrong size is not
+            else: rep.violation('sizeof.elem.%s' % n, '`%s`: one element is %d bytes, the compiler gives %s' % (src, want, got if c.status == 'ok' else (c.status, c.msg)), dict(kind='mir-const', source=src, expect=want, got=[c.status, got]))
+            continue
         for form in ('const int k = sizeof(%s);', 'const int k = sizeof(%s) + 0;'):
             src = d + '; ' + form % n
             out = replay_const(src); st['replays'] += 1; st['obligations'] += 1
